@@ -229,6 +229,7 @@ def finish(prop, level, tier, rep, t0, coverage, assumptions, replay_fn=None):
             new.append(v)
     # confirm each new violation by an independent replay (twice) if we can
     confirmed = []
+    unreproduced = []
     for v in new:
         if replay_fn is not None:
             try:
@@ -241,10 +242,21 @@ def finish(prop, level, tier, rep, t0, coverage, assumptions, replay_fn=None):
                 raise HarnessError(
                     'nondeterminism not owned: replays disagree for %r' % (v['signature'],))
             if not r1:
-                raise HarnessError(
-                    'violation found by exploration does not reproduce in replay: %r / %r' % (
-                        v['signature'], v['what']))
+                # not believed: it may be the consequence of an EARLIER case through state
+                # that the library keeps outside the manager (a module-level singleton).
+                # Only what reproduces from a fresh start is reported.
+                unreproduced.append(v)
+                continue
         confirmed.append(v)
+    if unreproduced and not confirmed:
+        v = unreproduced[0]
+        raise HarnessError(
+            'violation found by exploration does not reproduce in replay: %r / %r' % (
+                v['signature'], v['what']))
+    if unreproduced:
+        rep.note('%d further observation(s) did not reproduce from a fresh start and are not '
+                 'reported: %s' % (len(unreproduced),
+                                   '; '.join(v['signature'] for v in unreproduced[:5])))
     paths = []
     for v in confirmed:
         paths.append(write_replay(prop, v, tier))
